@@ -103,6 +103,48 @@ Qed.
 Lemma next_idx_fresh l : ~ In (next_idx l) l.
 Proof. intros H. apply next_idx_gt in H. lia. Qed.
 
+(* the probe returns an index that is not in use *)
+Definition cnt_ge (s : nat) (l : list nat) : nat := length (filter (fun x => Nat.leb s x) l).
+
+Lemma cnt_ge_cons s x t :
+  cnt_ge s (x :: t) = (if Nat.leb s x then 1 else 0) + cnt_ge s t.
+Proof. unfold cnt_ge. cbn [filter]. destruct (Nat.leb s x); reflexivity. Qed.
+
+Lemma cnt_ge_S_le s l : cnt_ge (S s) l <= cnt_ge s l.
+Proof.
+  induction l as [|x t IH]; [unfold cnt_ge; simpl; lia|]. rewrite !cnt_ge_cons.
+  destruct (Nat.leb_spec (S s) x), (Nat.leb_spec s x); lia.
+Qed.
+
+Lemma cnt_ge_S_lt s l : In s l -> cnt_ge (S s) l < cnt_ge s l.
+Proof.
+  induction l as [|x t IH]; [simpl; tauto|]. rewrite !cnt_ge_cons. intros [->|H].
+  - pose proof (cnt_ge_S_le s t) as Q.
+    destruct (Nat.leb_spec (S s) s); [lia|]. destruct (Nat.leb_spec s s); lia.
+  - specialize (IH H). destruct (Nat.leb_spec (S s) x), (Nat.leb_spec s x); lia.
+Qed.
+
+Lemma cnt_ge_0_notin s l : cnt_ge s l = 0 -> ~ In s l.
+Proof.
+  induction l as [|x t IH]; [simpl; tauto|]. rewrite cnt_ge_cons.
+  destruct (Nat.leb_spec s x) as [L|L]; [simpl; discriminate|]. simpl. intros Hc [->|Q]; [lia|]. apply IH; auto.
+Qed.
+
+Lemma cnt_ge_le_length s l : cnt_ge s l <= length l.
+Proof. induction l as [|x t IH]; [unfold cnt_ge; simpl; lia|]. rewrite cnt_ge_cons. simpl. destruct (Nat.leb s x); lia. Qed.
+
+Lemma first_free_fresh fuel : forall s l, cnt_ge s l <= fuel -> ~ In (first_free fuel s l) l.
+Proof.
+  induction fuel as [|f IH]; intros s l H; simpl.
+  - apply cnt_ge_0_notin. lia.
+  - destruct (memb s l) eqn:E.
+    + apply memb_In in E. apply IH. pose proof (cnt_ge_S_lt s l E). lia.
+    + apply memb_false. exact E.
+Qed.
+
+Lemma first_free_fresh_len s l : ~ In (first_free (length l) s l) l.
+Proof. apply first_free_fresh. apply cnt_ge_le_length. Qed.
+
 (* ---------------------------------------------------------------- edges *)
 Lemma ae_eqb_eq e f : ae_eqb e f = true <-> e = f.
 Proof.
